@@ -57,6 +57,9 @@ func goid() uint64 {
 	return id
 }
 
+// Goid returns the id of the calling goroutine.
+func Goid() uint64 { return goid() }
+
 // Go starts a task; it parks immediately at point "start" and runs only when granted.
 func (s *Sched) Go(name string, fn func()) *Task {
 	t := &Task{Name: name, s: s}
